@@ -114,3 +114,52 @@ def usable_points(gen, model, n, want=3, extra_env=None):
                 continue
             out.append((pt, ref, S))
     return out, tried
+
+
+class ReplayGen:
+    """a generator that replays the recorded input point(s) first and then falls back to random ones"""
+
+    def __init__(self, gen, points):
+        self.gen = gen
+        self.points = list(points)
+        self.rng = gen.rng
+
+    def __getattr__(self, name):
+        return getattr(self.gen, name)
+
+    def inputs(self, model, n=4):
+        out = []
+        for _ in range(n):
+            if self.points:
+                pt = dict(self.points.pop(0))
+                pt.setdefault("dt", 0.125)
+                pt.setdefault("t", 0.0)
+                out.append(pt)
+            else:
+                out.extend(self.gen.inputs(model, 1))
+        return out
+
+
+def replay_text_case(rep, drv, data, fn, *extra, **kw):
+    """re-run the per-model check of a property on the model text recorded in a replay file"""
+    import random as _random
+    import textmodel
+
+    text = data.get("decorated") or data.get("text")
+    if not text:
+        rep.notes.append("the replay file holds no model text; nothing to re-run")
+        return False
+    c = Case(drv, text)
+    if c.err is not None:
+        rep.violation(f"the recorded model is rejected: {c.err}", {"kind": "direct", "text": text})
+        return True
+    m = textmodel.model_from_items(c.captured)
+    rng = _random.Random(data.get("seed", 0))
+    g = lang.Gen(rng, max_depth=3)
+    pts = []
+    if isinstance(data.get("inputs"), dict) and "states" in data["inputs"]:
+        pts.append(data["inputs"])
+    gen = ReplayGen(g, pts)
+    core.guarded(rep, text, fn, rep, drv, gen, rng, m, text, c, *extra, **kw)
+    rep.case(key=text, nontrivial=True)
+    return True
